@@ -237,6 +237,9 @@ def tasks(tier, seed, selftest=False):
         add("D3", "lim", kind, 12 if q else 600)
         add("D3", "motifs", kind, 10 if q else 600)
         add("D3", "fault", kind, 10 if q else 600)
+    # diagrams with a shared child (a node with parents at different depths): resuming walks already expanded nodes
+    for kind in ("minp", "aseeds", "dfs", "bfs"):
+        add("SKIP3", "lim", kind, 10 if q else 600)
     for pre in PREFIX_OPS:
         for kind in ("bfs", "dfs", "minp", "aseeds", "target"):
             add("U2", "pre:" + pre, kind, 6 if q else 900)
